@@ -173,6 +173,28 @@ Proof.
   eapply read_at_inv; eassumption.
 Qed.
 
+(* every prewrite lock the pass rolls back leaves a marker that refuses a late prewrite; committed ones leave none *)
+Lemma rolled_back_marked st0 sp r l : In r st0 -> k_lock r = Some l -> l_start l <= sp -> is_pess l = false ->
+  committed_at st0 (l_primary l) (l_start l) = None -> late_prewrite_accepted (markers st0 sp) (k_key r) (l_start l) = false.
+Proof.
+  intros Hin Hl Hle Hp Hc. unfold late_prewrite_accepted. apply Bool.negb_false_iff. apply existsb_exists.
+  exists (k_key r, l_start l). split.
+  - unfold markers. apply in_flat_map. exists r. split; [exact Hin|]. unfold marker_of. rewrite Hl, Hp, Hc.
+    apply N.leb_le in Hle. rewrite Hle. left; reflexivity.
+  - cbn [fst snd]. rewrite bytes_eqb_refl, N.eqb_refl. reflexivity.
+Qed.
+Lemma marker_only_rolled_back st0 sp k t : In (k, t) (markers st0 sp) ->
+  exists r l, In r st0 /\ k_key r = k /\ k_lock r = Some l /\ l_start l = t /\ t <= sp /\ is_pess l = false /\
+              committed_at st0 (l_primary l) t = None.
+Proof.
+  unfold markers. intros H. apply in_flat_map in H as (r & Hin & Hm). unfold marker_of in Hm.
+  destruct (k_lock r) as [l|] eqn:Hl; [|destruct Hm].
+  destruct ((l_start l <=? sp) && negb (is_pess l)) eqn:Eb; [|destruct Hm].
+  apply Bool.andb_true_iff in Eb as [E1 E2]. apply N.leb_le in E1. apply Bool.negb_true_iff in E2.
+  destruct (committed_at st0 (l_primary l) (l_start l)) eqn:Ec; [destruct Hm|]. destruct Hm as [[= <- <-]|[]].
+  exists r, l. auto 10.
+Qed.
+
 (* ------------------------------------------------------------------ wf_storeb reflects wf_store *)
 Lemma sorted_keys_sorted st : sorted_keys st = true -> sorted st.
 Proof.
